@@ -64,6 +64,13 @@ fn reference(id: &str, s: [f64; 4]) -> Ref {
         // struct fields keep their declared meaning whatever the order at instantiation
         "struct-fields" => Ref::Num(a - b * c),
         "struct-nested-access" => Ref::Num(c + a),
+        // field access directly on a struct literal whose fields are written in another order than declared
+        "struct-literal-direct-access" => Ref::Num(a - b),
+        // a builtin with asymmetric parameters called through a function value keeps its argument order
+        "builtin-via-function-value" => Ref::Num(b),
+        "builtin-via-fn-parameter" => Ref::Num(c - a),
+        // nested calls: each frame sees its own arguments
+        "nested-call-frames" => Ref::Num((b * a) + (c * a) - b),
         // lists: element order
         "list-head-tail" => Ref::Num(b),
         "list-cons" => Ref::Num(c - a),
